@@ -539,6 +539,7 @@ def run(chk):
   chk.ob('C07-R2', ok, None, 'GROUP BY keys are sorted', 'GROUP BY follows set order', fi=fi)
   conjunct_translation_is_local(chk, 'C07-R2')
   reserved_prefix(chk, 'C07-R2')
+  unfolding_anchor_from_annotated(chk, 'C07-R2')
   # UNION ALL keeps program order of rules: PredicateSql iterates GetPredicateRules
   fi = repo.func('universe.LogicaProgram.GetPredicateRules')
   ok = any(isinstance(x, ast.For) and dotted(x.iter) == 'self.rules' for x in walk_local(fi.node))
@@ -739,3 +740,73 @@ def scalar_accumulator(repo, ci, step, acc):
     if r_[0] is not True:
       return r_
   return True, ''
+
+
+def unfolding_anchor_from_annotated(chk, rid):
+  """Depth, stop and mode of a recursive component are read from the predicate
+  chosen to unfold it.  When members of the component carry @Recursive the
+  choice is made AMONG THEM (else the annotation is silently ignored and the
+  result depends on which member sorts first, i.e. on predicate names)."""
+  repo = chk.repo
+  v = FnView(repo, 'functors.Functors.RecursiveAnalysis')
+  assigns = []
+  for n in v.cfg.stmt_nodes():
+    st = v.cfg.stmt[n]
+    if isinstance(st, ast.Assign) and len(st.targets) == 1 and dotted(st.targets[0]) == 'p' and \
+        any(isinstance(l_, ast.For) and dotted(l_.iter) == 'cover' and
+            any(y is st for y in ast.walk(l_)) for l_ in walk_local(v.fi.node)):
+      assigns.append((n, st))
+  if not assigns:
+    raise AnalysisError('RecursiveAnalysis: choice of the unfolding predicate not recognised')
+  bad = None
+  for n, st in assigns:
+    unannotated_only = any(
+        ('deep' in norm(e, 100) or 'depth_map' in norm(e, 100)) and ((val is False and not isinstance(e, ast.UnaryOp)) or
+                                    (val is True and isinstance(e, ast.UnaryOp)))
+        for e, val in v.guards(n))
+    if unannotated_only:
+      continue
+    e = v.expand(st.value, 3)
+    sources = []
+    for x in ast.walk(e):
+      if isinstance(x, ast.Call) and call_tail(x) in ('min', 'max', 'sorted', 'next', 'iter', 'list') \
+          and x.args and not isinstance(x.args[0], (ast.GeneratorExp, ast.ListComp)):
+        sources.append(x.args[0])
+      elif isinstance(x, (ast.GeneratorExp, ast.ListComp, ast.SetComp)):
+        sources.append(x.generators[0].iter)
+    top = [s_ for s_ in sources if not any(s_ is not o_ and any(y is s_ for y in ast.walk(o_))
+                                           for o_ in sources)]
+    # under `c & deep` (or unguarded with an IfExp / `or` fallback) every
+    # source of candidates that is tried FIRST mentions the annotated set
+    if isinstance(e, ast.IfExp) and ('deep' in norm(e.test, 100) or 'depth_map' in norm(e.test, 100)):
+      continue
+    def ann(s_):
+      t_ = norm(s_, 200) + ' ' + norm(v.expand(s_, 3), 200)
+      return 'deep' in t_ or 'depth_map' in t_
+    firsts = [s_ for s_ in sources if not ann(s_)]
+    annotated = [s_ for s_ in sources if ann(s_)]
+    guarded_true = any(('deep' in norm(g_, 100) or 'depth_map' in norm(g_, 100)) and val
+                       for g_, val in v.guards(n))
+    def first_source(x):
+      """the collection the FIRST candidate is drawn from"""
+      if isinstance(x, ast.BoolOp) and isinstance(x.op, ast.Or):
+        return first_source(x.values[0])
+      if isinstance(x, ast.Subscript):
+        return first_source(x.value)
+      if isinstance(x, (ast.GeneratorExp, ast.ListComp, ast.SetComp)):
+        return first_source(x.generators[0].iter)
+      if isinstance(x, ast.Call) and call_tail(x) in ('min', 'max', 'sorted', 'next', 'iter',
+                                                      'list', 'tuple', 'set', 'reversed') and x.args:
+        return first_source(x.args[0])
+      return x
+    fs = first_source(e)
+    if not ann(fs):
+      bad = (st, fs)
+  chk.ob(rid, bad is None, None,
+         'the predicate that anchors the unfolding of a component is chosen among its '
+         '@Recursive members when it has any',
+         '`%s` draws the anchor from `%s`, not from the annotated members: @Recursive(P, depth) '
+         'is ignored when another member of the cycle is preferred, and renaming predicates '
+         'changes which annotation counts' % (
+             norm(bad[0], 70) if bad else '', norm(bad[1], 40) if bad else ''),
+         fi=v.fi, node=bad[0] if bad else None)
